@@ -24,7 +24,11 @@
 #include "prelude.h"
 
 typedef size_t Index;
+#ifdef FV_DOUBLE
+typedef double Filtration_value;       /* second binding, used for has_larger_input only */
+#else
 typedef int Filtration_value;          /* binding: only operator< is applied to it (lemma L5) */
+#endif
 #ifdef OUTPUT_INDEX
 typedef struct { Filtration_value first; Index second; } T;     /* T_with_index */
 #define T_make(f, i) ((T){(f), (i)})
